@@ -257,7 +257,9 @@ def step (line : String) : String :=
       showSegs (getSegments (pParams kv) (kv.int "peak") (pItems (kv.get "X")))
     | "CANDIDATE" =>
       let P := pParams kv
-      exc (alignerAlign P (pChain kv) (pMap (kv.get "REF")) (pMap (kv.get "QRY")) (kv.ints "peaks") (kv.bool "rev") (kv.int "it")) fun row =>
+      -- `trimq=1`: the query is trimmed first, as `Program.__readMaps` does with every query it reads
+      let qry := if kv.bool "trimq" then (pMap (kv.get "QRY")).trim else pMap (kv.get "QRY")
+      exc (alignerAlign P (pChain kv) (pMap (kv.get "REF")) qry (kv.ints "peaks") (kv.bool "rev") (kv.int "it")) fun row =>
         exc (cigarOf aggregate row.pairs) fun c => showRow row ++ " cigar=" ++ c
     | "CIGAR" =>
       let ps := (pBPairs (kv.get "P")).map fun (r, q) => ({ r := ⟨r, 0⟩, q := ⟨q, 0⟩, shift := 0 } : Pr)
@@ -273,6 +275,11 @@ def step (line : String) : String :=
     | "SEQ" =>
       let stop := if kv.get "stop" = "none" then none else some (kv.int "stop")
       exc (sequenceOf (kv.int "res") (kv.int "blur") (kv.ints "POS") (kv.int "start") stop) showBits
+    | "GETSEQ" =>
+      -- `OpticalMap.getSequence(generator, reverseStrand, start, end)` (optical_map.py:84-86)
+      let stop := if kv.get "stop" = "none" then none else some (kv.int "stop")
+      exc (sequenceOf (kv.int "res") (kv.int "blur") (pMap (kv.get "M")).positions (kv.int "start") stop) fun v =>
+        showBits (if kv.bool "rev" then v.reverse else v)
     | "XCORR" =>
       exc (correlate (pBits (kv.get "R")) (pBits (kv.get "Q"))) fun c => ",".intercalate (c.map toString)
     | "FINDPEAKS" =>
